@@ -177,6 +177,12 @@ func (e *bEngine) applyContract(st *bState, con *Contract, callee *ssa.Function,
 		env := e.env(st, pre, b2, bind, con, pkg)
 		env.callee = true
 		g := env.Term(en.Expr)
+		if st.norm(g).IsFalse() {
+			// a postcondition that is plainly false in the state after the callee's declared effects
+			// would silently make the rest of the path vacuous: the callee's contract does not
+			// describe its effects (assigns / draw / gset) at this call
+			panic(verr("the postcondition `%s` of %s is contradictory after its declared effects at %s (the path would be vacuous)", exprString(en.Expr), short, at))
+		}
 		st.assume(g)
 	}
 	return res
@@ -299,8 +305,19 @@ func parseWlog(s, where string) (cond, guard ast.Expr) {
 func (e *bEngine) applyDraws(st *bState, con *Contract, bind map[string]bVal, pkg string) {
 	for _, s := range con.Raw["draw"] {
 		parts := splitTop(s, ',')
+		if len(parts) == 1 && strings.TrimSpace(parts[0]) != "" {
+			// draw <dist>: one value of the distribution is consumed; where it goes is said by the postconditions
+			dx, err := parser.ParseExpr(strings.TrimSpace(parts[0]))
+			if err != nil {
+				panic(verr("%s: bad draw clause %q", con.File, s))
+			}
+			d := e.env(st, st, bind, nil, con, pkg).Term(dx)
+			cnt := e.ghostArr(st, "draws")
+			st.ghost["draws"] = Store(cnt, d, Add(Select(cnt, d), ConstI(1)))
+			continue
+		}
 		if len(parts) < 2 {
-			panic(verr("%s: draw expects: dist, poly[, add]", con.File))
+			panic(verr("%s: draw expects: dist[, poly[, add]]", con.File))
 		}
 		dx, err1 := parser.ParseExpr(strings.TrimSpace(parts[0]))
 		px, err2 := parser.ParseExpr(strings.TrimSpace(parts[1]))
@@ -1551,8 +1568,22 @@ func (e *bEngine) verify(caseSpec string) {
 	entryOld := shallowOld(e.entry)
 	e.pushFrame(st, fn, args, nil, nil)
 	returns := 0
+	reachable := false
+	var lastPath []*Term
 	e.runAll(st, func(fs *bState, res bVal) {
 		returns++
+		if !reachable {
+			// at least one return must be reachable under the contract (a callee postcondition that
+			// contradicts the state, or contradictory case / requires clauses, would make every
+			// postcondition hold vacuously): asked of the solver until one return is found feasible
+			o := &Obligation{Name: e.name + "/feasibility", Func: e.name, Kind: "feasibility", Goal: TFalse, Native: true}
+			o.Assume = append([]*Term(nil), fs.path...)
+			o.Discharge(3)
+			if o.Status != "unsat" {
+				reachable = true
+			}
+			lastPath = o.Assume
+		}
 		b2 := map[string]bVal{}
 		for k, v := range bind {
 			b2[k] = v
@@ -1587,5 +1618,10 @@ func (e *bEngine) verify(caseSpec string) {
 	})
 	if returns == 0 {
 		panic(verr("no path reaches a return (every path ends in a panic or an unsupported construct)"))
+	}
+	if !reachable {
+		o := &Obligation{Name: e.name + "/vacuity:returns", Func: e.name, Kind: "vacuity", Goal: TFalse, File: con.File, Native: true}
+		o.Assume = lastPath
+		e.obls = append(e.obls, o)
 	}
 }
